@@ -411,6 +411,16 @@ impl Angle {
     }
 }
 
+/// verification hook (off unless built with `--cfg geonum_verif`): lets the /verif harness
+/// rebuild an `Angle` from the `(blade, rem)` pair it observed through `blade()` / `rem()`
+#[cfg(geonum_verif)]
+impl Angle {
+    #[doc(hidden)]
+    pub fn verif_from_parts(blade: usize, rem: f64) -> Angle {
+        Angle { rem, blade }
+    }
+}
+
 impl PartialEq for Angle {
     fn eq(&self, other: &Self) -> bool {
         // exact blade comparison
